@@ -17,7 +17,7 @@ use std::sync::Mutex;
 pub fn sigma_full() -> Vec<&'static str> {
     let mut v = vec![
         // text / misc
-        "x", " ", "\n", "\0", "<!--c-->", "<!DOCTYPE html>",
+        "x", " ", "\n", "\0", "<!--c-->", "<!DOCTYPE html>", "\t", "\x0C", "\r", "\u{a0}", "\x0B", "\u{3000}",
         // structure
         "<html>", "<head>", "<body>", "</head>", "</body>", "</html>",
         // ordinary / special blocks
@@ -402,6 +402,13 @@ pub fn main(ctx: &Ctx, prop: Prop) -> ! {
     if prop == Prop::C04 {
         crate::c04::extra(ctx, &stats);
     }
+    let mut direct = (0u64, 0u64, true, 0usize);
+    if prop == Prop::C20 {
+        direct = crate::c20::direct(ctx);
+        states += direct.0;
+        transitions += direct.1;
+        closed_all &= direct.2;
+    }
     let (level, rule) = match prop {
         Prop::C02 => ("model_checking", "after end() of every execution the final DOM (kinds, order, names, namespaces, attributes with namespace/prefix/value, text, comments, doctype, template contents, duplicate-attribute flag) and the quirks mode reported to the sink must equal what R-tok + R-tree (reference transliteration of the WHATWG algorithms) compute for the same input and configuration"),
         Prop::C04 => ("fault_enumeration", "every execution of the tree-level jobs (all lexeme strings up to the job depth, chunk per lexeme): no panic, feed() leaves the queue empty unless suspended, end() returns, tree-builder state invariants at every suspension point; plus option vectors, scale grid and xml5ever jobs"),
@@ -426,6 +433,7 @@ pub fn main(ctx: &Ctx, prop: Prop) -> ! {
             "jobs": jobrep,
             "nodes_collected_by_simulated_gc": stats.collected.load(Ordering::Relaxed),
             "detach_deviation_runs": detach_runs,
+            "direct_sequences": {"states": direct.0, "transitions": direct.1, "complete_to_depth": direct.2, "depth": direct.3},
             "samples": samples,
         }),
     )
@@ -480,6 +488,10 @@ pub fn parse_tree_witness(w: &str) -> (TreeCfg, Vec<Feed>, Env) {
 
 pub fn replay(ctx: &Ctx, prop: Prop, v: &serde_json::Value) {
     let w = v["witness"].as_str().unwrap_or("");
+    if w.starts_with("direct: ") {
+        crate::c20::replay_direct(ctx, w);
+        return;
+    }
     let (mut cfg, sched, mut env) = parse_tree_witness(w);
     if prop == Prop::C02 {
         let input: String = sched.iter().map(|f| if let Feed::Chunk(s) = f { s.as_str() } else { "" }).collect();
